@@ -60,8 +60,10 @@ int main(int argc, char **argv) {
         if (!failed) writeFileText(curPath, text);
         if (failed && ++shrinkRuns > shrinkBudget) return;      // bound the shrinking effort: further candidates "pass"
         CaseResult r;
+        caseCpuGuard(true);
         try { r = p->run(c, ctx); }
         catch (const std::exception &e) { r = CaseResult(); r.fail(std::string("exception escaped the property body: ") + e.what()); }
+        caseCpuGuard(false);
         if (!failed) {
             if (r.v == CaseResult::DISCARD) { ++discards; tags["discard:" + r.msg]++; }
             else {
